@@ -30,6 +30,7 @@
 #include <string.h>
 
 #include "archive.h"
+#include "archive_private.h"
 
 struct write_memory_data {
 	size_t	used;
@@ -52,6 +53,9 @@ archive_write_open_memory(struct archive *a, void *buff, size_t buffSize, size_t
 {
 	struct write_memory_data *mine;
 
+	/* archive_write_open2() would refuse later, after the allocation. */
+	archive_check_magic(a, ARCHIVE_WRITE_MAGIC,
+	    ARCHIVE_STATE_NEW, "archive_write_open_memory");
 	mine = calloc(1, sizeof(*mine));
 	if (mine == NULL) {
 		archive_set_error(a, ENOMEM, "No memory");
